@@ -466,6 +466,21 @@ fn reduced_logs(f: usize) -> Vec<Vec<Frame>> {
 }
 
 
+/// Position-coded log of `f` frames (every frame distinct from its neighbours and from the frame 256
+/// and 65536 places away), envelope shape written in every fifth frame
+fn long_log(f: usize) -> Vec<Frame> {
+    (0..f)
+        .map(|k| {
+            let mut fr = [0u8; 14];
+            for r in 0..13 {
+                fr[r] = (k.wrapping_mul(13) + r * 17 + (k >> 8) + (k >> 16) * 5) as u8;
+            }
+            fr[13] = if k % 5 == 0 { (k >> 4) as u8 & 0x0F } else { 0xFF };
+            fr
+        })
+        .collect()
+}
+
 fn sched_enumeration(ctx: &Ctx, col: &Collector) {
     let budget: u64 = if ctx.thorough() { 1 << 27 } else { 1 << 23 };
     let extra = 3usize;
@@ -583,6 +598,34 @@ fn sched_enumeration(ctx: &Ctx, col: &Collector) {
         }
         ctx.add_eval(n);
         ctx.note("sched_trailing_byte_cases", json!(n));
+    }
+    // long logs: frame counts at and around 2^8 and 2^16 (a 22-minute track at 50 Hz), one or two
+    // samples per frame, whole-track buffers and small odd ones
+    {
+        let mut n = 0u64;
+        let mut scratch = Vec::new();
+        let counts: Vec<usize> = if ctx.thorough() { vec![255, 256, 257, 65535, 65536, 65537, 70001, 131073] } else { vec![255, 256, 257, 65535, 65536, 65537] };
+        for f in counts {
+            let frames = long_log(f);
+            for spf in [1usize, 2] {
+                let m = model(&frames, spf);
+                for stereo in [false, true] {
+                    let unit = if stereo { 2 } else { 1 };
+                    let total = f * spf * unit;
+                    for lens in [vec![total + 8, 4], vec![4096 * unit; total / (4096 * unit) + 2], vec![7 * unit; total / (7 * unit) + 2]] {
+                        n += 1;
+                        if let Err(fail) = sched_case(&frames, spf * 50, 50, stereo, &lens, &m, &mut scratch, false) {
+                            let key = format!("{}:long-log", fail.0);
+                            col.fail((950, f as u64, n), &key, &format!("register log of {} frames, {} sample(s) per frame, {} buffers of {} elements: {}", f, spf, lens.len(), lens[0], fail.1), || {
+                                json!({"kind":"sched-long","frames":f,"spf":spf,"stereo":stereo,"buffer_len":lens[0],"buffers":lens.len()})
+                            });
+                        }
+                    }
+                }
+            }
+        }
+        ctx.add_eval(n);
+        ctx.note("sched_long_log_cases", json!(n));
     }
     ctx.note("sched_play_calls", json!(calls_total.into_inner()));
     // a few real cases for the evidence file
@@ -1260,6 +1303,16 @@ fn replay_case(path: &str) -> i32 {
             println!("replay: recording backend, {} frames, rate {} / player frequency {} = {} samples per frame, stereo {}, buffer lengths {:?}", frames.len(), rate, pf, rate / pf as usize, stereo, lens);
             let m = model(&frames, rate / pf as usize);
             sched_case_tail(&frames, case["tail"].as_u64().unwrap_or(0) as usize, rate, pf, stereo, &lens, &m, &mut Vec::new(), true).map(|_| ())
+        }
+        "sched-long" => {
+            let f = case["frames"].as_u64().unwrap() as usize;
+            let spf = case["spf"].as_u64().unwrap() as usize;
+            let stereo = case["stereo"].as_bool().unwrap();
+            let frames = long_log(f);
+            let lens = vec![case["buffer_len"].as_u64().unwrap() as usize; case["buffers"].as_u64().unwrap() as usize];
+            println!("replay: recording backend, long log of {} frames, {} sample(s) per frame, stereo {}, {} buffers of {}", f, spf, stereo, lens.len(), lens[0]);
+            let m = model(&frames, spf);
+            sched_case(&frames, spf * 50, 50, stereo, &lens, &m, &mut Vec::new(), false).map(|_| ())
         }
         "real" => {
             let frames = frames_from(&case["frames"]);
